@@ -12,6 +12,13 @@ package main
 //    registers for integers: register/register, register/plain, plain/register); min, max; the
 //    value against an independently built copy; one map holding every value as key.  Seeded random
 //    universes follow as further batches.
+//    Values have a history (tags `how`, `ep`, see OrderLaws.tla): a container may be built as a
+//    "was larger, shrank" twin (map with 5 more entries deleted again / NewMapSize for more pairs
+//    than keys / literal with repeated keys; array as a slice of a longer one), and the values of a
+//    universe may be made in several epochs of the session, separated by events (a top level
+//    function redefined, a constant deleted and rebound, many functions defined and redefined, each
+//    followed by a call).  OrderLaws!HistoryUniverse is such a session; half of the random
+//    universes are, too.  The table is recorded after the last epoch: old against new values.
 // 3. table run (TLC, Mode = "table"): the laws over all pairs and triples of every batch - batch 1
 //    is the model's own table (MC of the documented order, must be clean), then the recorded ones.
 //    TLC names every broken law instance; each is re-evaluated on the real code (c12ReplayInstance)
@@ -54,7 +61,22 @@ type c12Val struct {
 	T   string          `json:"t"`
 	V   json.RawMessage `json:"v,omitempty"`
 	Src string          `json:"src,omitempty"` // functions: the grol source that produces it
+	// tags the order ignores (see OrderLaws.tla "values with a history"):
+	How string `json:"how,omitempty"` // containers: "shrunk" | "dupkeys" (maps), "slice" (arrays)
+	Ep  *int   `json:"ep,omitempty"`  // epoch of the session in which the value is made
 }
+
+func (a c12Val) epoch() int {
+	if a.Ep == nil {
+		return 0
+	}
+	return *a.Ep
+}
+
+func (a c12Val) at(e int) c12Val { a.Ep = &e; return a }
+
+// c12Pads are the extra keys a "shrunk" map holds before they are deleted again.
+var c12Pads = []string{"zqp1", "zqp2", "zqp3", "zqp4", "zqp5"}
 
 func c12Raw(v any) json.RawMessage { b, _ := json.Marshal(v); return b }
 
@@ -207,12 +229,35 @@ func c12Source(a c12Val) string {
 		for i, e := range el {
 			parts[i] = c12Source(e)
 		}
+		if a.How == "slice" { // the tail of an array of 9 more elements
+			return "[" + strings.Join(append([]string{"0,0,0,0,0,0,0,0,0"}, parts...), ",") + "][9:]"
+		}
 		return "[" + strings.Join(parts, ",") + "]"
 	case "map":
 		ps := a.pairs()
 		parts := make([]string, len(ps))
 		for i, p := range ps {
 			parts[i] = c12Source(p[0]) + ":" + c12Source(p[1])
+		}
+		switch {
+		case a.How == "shrunk": // five more entries, deleted again (an expression: usable when nested)
+			var sb strings.Builder
+			sb.WriteString("func(){m={" + strings.Join(parts, ","))
+			for i, pad := range c12Pads {
+				if i > 0 || len(parts) > 0 {
+					sb.WriteString(",")
+				}
+				sb.WriteString(strconv.Quote(pad) + ":0")
+			}
+			sb.WriteString("}")
+			for _, pad := range c12Pads {
+				sb.WriteString(";del(m[" + strconv.Quote(pad) + "])")
+			}
+			sb.WriteString(";m}()")
+			return sb.String()
+		case a.How == "dupkeys" && len(ps) > 0: // the first key four times before the pairs
+			dup := c12Source(ps[0][0]) + ":0,"
+			return "{" + dup + dup + dup + dup + strings.Join(parts, ",") + "}"
 		}
 		return "{" + strings.Join(parts, ",") + "}"
 	case "func", "quote", "ext":
@@ -272,6 +317,42 @@ func (z *c12Sess) get(name string) (o object.Object, status int) {
 	return res, 0
 }
 
+// c12HistoryEvents are the kinds of session events (OrderLaws!HistoryEvents, cross-checked at export).
+var c12HistoryEvents = []string{"redefine_function", "rebind_constant", "many_definitions"}
+
+// event takes the session through the event that precedes epoch e: a top level function is
+// redefined, a constant is deleted and bound again, or many functions are defined and defined
+// again - each followed by a function call (that is when the interpreter notices).
+func (z *c12Sess) event(e int) error {
+	kind := c12HistoryEvents[(e+len(c12HistoryEvents)-1)%len(c12HistoryEvents)]
+	if e == 0 {
+		kind = "redefine_function"
+	}
+	var script []string
+	switch kind {
+	case "redefine_function":
+		script = []string{fmt.Sprintf("func zqh(){%d}", e)}
+	case "rebind_constant":
+		script = []string{fmt.Sprintf("del(ZQC)\nZQC = %d", e)}
+	case "many_definitions":
+		for round := 0; round < 2; round++ {
+			for k := 1; k <= 12; k++ {
+				script = append(script, fmt.Sprintf("zqm%d = func(x){x-%d}", k, 1000*e+100*round+k))
+			}
+		}
+		script = append(script, "zqm1(1)")
+	default:
+		return fmt.Errorf("unknown history event %q", kind)
+	}
+	script = append(script, "zqh()")
+	for _, src := range script {
+		if st, msg := z.run(src); st != 0 {
+			return fmt.Errorf("history event %s before epoch %d: %s: %s", kind, e, src, msg)
+		}
+	}
+	return nil
+}
+
 // c12Build constructs the value as a Go object; functions are evaluated from their source.
 func c12Build(a c12Val, z *c12Sess) (object.Object, error) {
 	switch a.T {
@@ -295,10 +376,32 @@ func c12Build(a c12Val, z *c12Sess) (object.Object, error) {
 			}
 			objs = append(objs, o)
 		}
+		if a.How == "slice" { // no object-level API makes a slice: through the interpreter
+			if st, msg := z.run("zqfn = " + c12Source(a)); st != 0 {
+				return nil, fmt.Errorf("source %q: %s", c12Source(a), msg)
+			}
+			if o, st := z.get("zqfn"); st == 0 && o.Type() == object.ARRAY {
+				return o, nil
+			}
+			return nil, fmt.Errorf("source %q did not evaluate to an array", c12Source(a))
+		}
 		return object.NewArray(objs), nil
 	case "map":
 		ps := a.pairs()
 		m := object.NewMapSize(len(ps))
+		switch {
+		case a.How == "shrunk": // sized for and filled with five more entries, deleted again
+			m = object.NewMapSize(len(ps) + len(c12Pads))
+		case a.How == "dupkeys" && len(ps) > 0: // sized for more pairs than it has keys
+			m = object.NewMapSize(len(ps) + 4)
+			k, err := c12Build(ps[0][0], z)
+			if err != nil {
+				return nil, err
+			}
+			for i := 0; i < 4; i++ {
+				m = m.Set(k, object.Integer{Value: 0})
+			}
+		}
 		for _, p := range ps {
 			k, err := c12Build(p[0], z)
 			if err != nil {
@@ -309,6 +412,14 @@ func c12Build(a c12Val, z *c12Sess) (object.Object, error) {
 				return nil, err
 			}
 			m = m.Set(k, v)
+		}
+		if a.How == "shrunk" {
+			for _, pad := range c12Pads {
+				m = m.Set(object.String{Value: pad}, object.Integer{Value: 0})
+			}
+			for _, pad := range c12Pads {
+				m, _ = m.Delete(object.String{Value: pad})
+			}
 		}
 		return m, nil
 	case "func", "quote", "ext": // values that only the interpreter can make: evaluated from their source
@@ -545,46 +656,7 @@ func c12Evaluate(u []c12Val, src string) (*c12Table, error) {
 	n := len(u)
 	t := &c12Table{N: n, Src: src, U: u, M: map[string][][]int{}, V: map[string][]int{}}
 	z := c12NewSess()
-	// the values as Go objects, twice
-	objs := make([]object.Object, n)
-	cops := make([]object.Object, n)
-	ident := make([]string, n) // structural identity of the value as the real code built it
-	for i, a := range u {
-		var err error
-		if objs[i], err = c12Build(a, z); err != nil {
-			return nil, err
-		}
-		if cops[i], err = c12Build(a, z); err != nil {
-			return nil, err
-		}
-		got := c12Abstract(objs[i])
-		if !c12Matches(a, got) {
-			return nil, fmt.Errorf("constructed object %d is %s, the universe says %s", i+1, got.canon(), a.canon())
-		}
-		ident[i] = got.canon()
-	}
-	// the values as grol source, twice, bound in one persistent state
-	unbound := make([]bool, n)
-	for i, a := range u {
-		for _, pfx := range []string{"zqv", "zqw"} {
-			name := pfx + strconv.Itoa(i+1)
-			if st, msg := z.run(name + " = " + c12Source(a)); st != 0 {
-				// the real code refuses to evaluate the literal of a universe value (e.g. "key .. is not
-				// hashable" when == is not reflexive): every source observation that involves the value
-				// then records "no answer" (8) and the `answered` law reports it
-				unbound[i] = true
-				t.notePanic("%s = %s: %s", name, c12Source(a), msg)
-				continue
-			}
-			o, st := z.get(name)
-			if st != 0 {
-				return nil, fmt.Errorf("reading back %s failed", name)
-			}
-			if got := c12Abstract(o).canon(); got != ident[i] {
-				return nil, fmt.Errorf("source %q evaluates to %s, the constructed object is %s", c12Source(a), got, ident[i])
-			}
-		}
-	}
+	// the functions of the operator contexts come first: they are part of the session's past
 	for _, f := range c12Forms {
 		if f.params == "" {
 			continue
@@ -596,6 +668,71 @@ func c12Evaluate(u []c12Val, src string) (*c12Table, error) {
 		for _, d := range defs {
 			if st, msg := z.run(d); st != 0 {
 				return nil, fmt.Errorf("defining %s: %s", d, msg)
+			}
+		}
+	}
+	// the values, epoch by epoch: before the values of epoch e > 0 are made the session goes through
+	// event e (and through one event before epoch 0 when there are later epochs, so that the oldest
+	// values are not the first things the session ever made)
+	objs := make([]object.Object, n)
+	cops := make([]object.Object, n)
+	ident := make([]string, n) // structural identity of the value as the real code built it
+	unbound := make([]bool, n)
+	maxEp := 0
+	for _, a := range u {
+		maxEp = max(maxEp, a.epoch())
+	}
+	if maxEp > 0 {
+		if st, msg := z.run("func zqh(){-1}\nZQC = -1"); st != 0 {
+			return nil, fmt.Errorf("session prelude: %s", msg)
+		}
+	}
+	for e := 0; e <= maxEp; e++ {
+		if maxEp > 0 {
+			if err := z.event(e); err != nil {
+				return nil, err
+			}
+		}
+		// as Go objects, twice
+		for i, a := range u {
+			if a.epoch() != e {
+				continue
+			}
+			var err error
+			if objs[i], err = c12Build(a, z); err != nil {
+				return nil, err
+			}
+			if cops[i], err = c12Build(a, z); err != nil {
+				return nil, err
+			}
+			got := c12Abstract(objs[i])
+			if !c12Matches(a, got) {
+				return nil, fmt.Errorf("constructed object %d is %s, the universe says %s", i+1, got.canon(), a.canon())
+			}
+			ident[i] = got.canon()
+		}
+		// as grol source, twice, bound in the one persistent state
+		for i, a := range u {
+			if a.epoch() != e {
+				continue
+			}
+			for _, pfx := range []string{"zqv", "zqw"} {
+				name := pfx + strconv.Itoa(i+1)
+				if st, msg := z.run(name + " = " + c12Source(a)); st != 0 {
+					// the real code refuses to evaluate the literal of a universe value (e.g. "key .. is not
+					// hashable" when == is not reflexive): every source observation that involves the value
+					// then records "no answer" (8) and the `answered` law reports it
+					unbound[i] = true
+					t.notePanic("%s = %s: %s", name, c12Source(a), msg)
+					continue
+				}
+				o, st := z.get(name)
+				if st != 0 {
+					return nil, fmt.Errorf("reading back %s failed", name)
+				}
+				if got := c12Abstract(o).canon(); got != ident[i] {
+					return nil, fmt.Errorf("source %q evaluates to %s, the constructed object is %s", c12Source(a), got, ident[i])
+				}
 			}
 		}
 	}
@@ -890,6 +1027,13 @@ func c12LawHolds(t *c12Table, law, info string, x, y, z int) bool {
 		if m, ok := t.M[info]; ok {
 			return m[x][y] != 8
 		}
+	case "same_value_equal":
+		if info == "cmp" {
+			return c == 0 || c == 99
+		}
+		if m, ok := t.M[info]; ok {
+			return m[x][y] == 1 || m[x][y] >= 8
+		}
 	case "cmp_reflexive":
 		return c == 0
 	case "cmp_antisymmetric":
@@ -1001,15 +1145,23 @@ func c12CheckInstance(t *c12Table, law, info string, x, y, z int) (bool, string)
 }
 
 func c12Describe(law, info string, vals []c12Val, x, y, z int, t *c12Table) string {
+	kind := func(v c12Val) string { // type, and when it was made if the session has epochs
+		for _, o := range vals {
+			if o.epoch() > 0 {
+				return fmt.Sprintf("%s, made in epoch %d of the session", v.T, v.epoch())
+			}
+		}
+		return v.T
+	}
 	a, b := c12Source(vals[x]), c12Source(vals[y])
 	s := fmt.Sprintf("law %s", law)
 	if info != "" {
 		s += "(" + info + ")"
 	}
-	s += fmt.Sprintf(" broken for a = %s (%s), b = %s (%s)", a, vals[x].T, b, vals[y].T)
+	s += fmt.Sprintf(" broken for a = %s (%s), b = %s (%s)", a, kind(vals[x]), b, kind(vals[y]))
 	M := t.M
 	if strings.HasPrefix(law, "trans_") {
-		s += fmt.Sprintf(", c = %s (%s)", c12Source(vals[z]), vals[z].T)
+		s += fmt.Sprintf(", c = %s (%s)", c12Source(vals[z]), kind(vals[z]))
 		s += fmt.Sprintf(": cmp(a,b)=%d cmp(b,c)=%d cmp(a,c)=%d, equals %d %d %d, a<=b %d b<=c %d a<=c %d, a==b %d b==c %d a==c %d",
 			M["cmp"][x][y], M["cmp"][y][z], M["cmp"][x][z], M["eq"][x][y], M["eq"][y][z], M["eq"][x][z],
 			M["tle"][x][y], M["tle"][y][z], M["tle"][x][z], M["teq"][x][y], M["teq"][y][z], M["teq"][x][z])
@@ -1045,6 +1197,32 @@ func replayC12(rp map[string]any) (bool, string) {
 }
 
 // ---------------------------------------------------------------------------- signatures
+
+// c12HasHistory: some value of the universe is made after a session event or has a construction history.
+func c12HasHistory(u []c12Val) bool {
+	for _, v := range u {
+		if v.epoch() > 0 || c12Hows(v) != "" {
+			return true
+		}
+	}
+	return false
+}
+
+// c12Hows lists the construction-history tags of a value and of its parts.
+func c12Hows(a c12Val) string {
+	s := a.How
+	switch a.T {
+	case "arr":
+		for _, e := range a.elems() {
+			s += c12Hows(e)
+		}
+	case "map":
+		for _, p := range a.pairs() {
+			s += c12Hows(p[0]) + c12Hows(p[1])
+		}
+	}
+	return s
+}
 
 // c12Leaves collects the scalar leaves of a value.
 func c12Leaves(a c12Val, f func(c12Val)) {
@@ -1131,6 +1309,23 @@ func c12Signature(law, info string, vals []c12Val) string {
 	if rounding {
 		return "cmp-int-float-beyond-2^53-" + family
 	}
+	// features of the history of the values: the same value built differently; made in different epochs
+	suffix := ""
+	for i := range vals {
+		for j := range vals {
+			if i < j && vals[i].epoch() != vals[j].epoch() {
+				suffix = "-across-session-events"
+			}
+		}
+	}
+	for i := range vals {
+		for j := range vals {
+			if i < j && vals[i].canon() == vals[j].canon() && c12Hows(vals[i]) != c12Hows(vals[j]) {
+				return "same-" + vals[i].T + "-built-differently-" + family + suffix
+			}
+		}
+	}
+	family += suffix
 	nan, negz, fn, quotes := false, false, false, 0
 	types := map[string]bool{}
 	for _, v := range vals {
@@ -1296,16 +1491,40 @@ func c12Twin(a c12Val) c12Val {
 	return a
 }
 
-func c12GenUniverse(r *rand.Rand, n int) []c12Val {
+// c12Rebuilt: the same container with another construction history.
+func c12Rebuilt(r *rand.Rand, a c12Val) c12Val {
+	switch a.T {
+	case "arr":
+		a.How = []string{"", "slice"}[r.Intn(2)]
+	case "map":
+		a.How = []string{"", "shrunk", "dupkeys"}[r.Intn(3)]
+		if a.How == "dupkeys" && len(a.pairs()) == 0 {
+			a.How = "shrunk"
+		}
+	}
+	return a
+}
+
+// c12GenUniverse draws n values; epochs > 0 spreads them over that many + 1 epochs of the session.
+func c12GenUniverse(r *rand.Rand, n, epochs int) []c12Val {
 	u := make([]c12Val, 0, n)
 	for len(u) < n {
 		switch k := r.Intn(10); {
 		case k == 0 && len(u) > 0:
-			u = append(u, u[r.Intn(len(u))]) // a copy
+			u = append(u, c12Rebuilt(r, u[r.Intn(len(u))])) // a copy, maybe built differently
 		case k <= 2 && len(u) > 0:
 			u = append(u, c12Twin(u[r.Intn(len(u))]))
 		default:
-			u = append(u, c12GenValue(r, 2))
+			v := c12GenValue(r, 2)
+			if r.Intn(6) == 0 {
+				v = c12Rebuilt(r, v)
+			}
+			u = append(u, v)
+		}
+	}
+	if epochs > 0 {
+		for i := range u {
+			u[i] = u[i].at(r.Intn(epochs + 1))
 		}
 	}
 	return u
@@ -1321,38 +1540,52 @@ func c12Cfg(mode, tier string, inv bool) string { //nolint
 	return s
 }
 
-func c12ReadBroken(path string) (universe []c12Val, modelTable json.RawMessage, broken, disagree []c12Broken, err error) {
+// c12Emit is what a TLC run of OrderLaws emitted.
+type c12Emit struct {
+	universe, history []c12Val
+	events            []string
+	modelTable        json.RawMessage
+	broken, disagree  []c12Broken
+}
+
+func c12ReadEmitted(path string) (*c12Emit, error) {
+	em := &c12Emit{}
 	if _, e := os.Stat(path); os.IsNotExist(e) {
-		return // nothing emitted: no broken law, no disagreement
+		return em, nil // nothing emitted: no broken law, no disagreement
 	}
-	err = ReadLines(path, func(line []byte) error {
+	err := ReadLines(path, func(line []byte) error {
 		var head struct {
-			Law   string          `json:"law"`
-			Val   c12Val          `json:"val"`
-			Table json.RawMessage `json:"table"`
+			Law    string          `json:"law"`
+			Val    c12Val          `json:"val"`
+			Table  json.RawMessage `json:"table"`
+			Events []string        `json:"events"`
 		}
 		if e := json.Unmarshal(line, &head); e != nil {
 			return fmt.Errorf("emitted line %q: %w", line, e)
 		}
 		switch head.Law {
 		case "universe":
-			universe = append(universe, head.Val)
+			em.universe = append(em.universe, head.Val)
+		case "history":
+			em.history = append(em.history, head.Val)
+		case "history_events":
+			em.events = head.Events
 		case "model_table":
-			modelTable = append(json.RawMessage(nil), head.Table...)
+			em.modelTable = append(json.RawMessage(nil), head.Table...)
 		default:
 			var b c12Broken
 			if e := json.Unmarshal(line, &b); e != nil {
 				return fmt.Errorf("emitted line %q: %w", line, e)
 			}
 			if b.Law == "model_disagreement" {
-				disagree = append(disagree, b)
+				em.disagree = append(em.disagree, b)
 			} else {
-				broken = append(broken, b)
+				em.broken = append(em.broken, b)
 			}
 		}
 		return nil
 	})
-	return
+	return em, err
 }
 
 func checkC12(c *Ctx) {
@@ -1367,9 +1600,14 @@ func checkC12(c *Ctx) {
 		c.Infra(err)
 		return
 	}
-	universe, modelTable, _, _, err := c12ReadBroken(r.Emitted)
+	ex, err := c12ReadEmitted(r.Emitted)
 	if err != nil {
 		c.Infra(err)
+		return
+	}
+	universe, modelTable := ex.universe, ex.modelTable
+	if len(ex.history) < 20 || strings.Join(ex.events, ",") != strings.Join(c12HistoryEvents, ",") {
+		c.Infra(fmt.Errorf("export run: %d history values, events %v (the harness knows %v)", len(ex.history), ex.events, c12HistoryEvents))
 		return
 	}
 	n := len(universe)
@@ -1393,9 +1631,18 @@ func checkC12(c *Ctx) {
 		return
 	}
 	tables = append(tables, cur)
+	// values of several epochs of one session: made before / after a function is redefined, a
+	// constant rebound, many functions defined (OrderLaws!HistoryUniverse)
+	hist, err := c12Evaluate(ex.history, "history")
+	if err != nil {
+		c.Infra(fmt.Errorf("history universe: %w", err))
+		return
+	}
+	tables = append(tables, hist)
+	c.Cov("history_universe_size", len(ex.history))
 	nRandom, randSize := c.Pick(6, 120), c.Pick(24, 32)
 	for k := 0; k < nRandom; k++ {
-		u := c12GenUniverse(c.Rng, randSize)
+		u := c12GenUniverse(c.Rng, randSize, (k%2)*2) // every other one spread over three epochs of its session
 		t, err := c12Evaluate(u, "random")
 		if err != nil {
 			c.Infra(fmt.Errorf("random universe %d: %w", k+1, err))
@@ -1435,8 +1682,8 @@ func checkC12(c *Ctx) {
 			}
 			return r
 		}(), "min": cur.M["mn"][5][17], "max": cur.M["mx"][5][17]})
-	if len(tables) > 1 {
-		t := tables[1]
+	if len(tables) > 2 {
+		t := tables[2]
 		c.Sample(map[string]any{"random_universe_1": func() []string {
 			var s []string
 			for _, v := range t.U {
@@ -1464,11 +1711,12 @@ func checkC12(c *Ctx) {
 	c.Cov("table_run_s", time.Since(t0).Seconds())
 	c.AddTraces(pairs - int64(n*n)) // pair records of the real code (the model batch is not one)
 	c.Cov("exhaustive", true)
-	_, _, allBroken, disagree, err := c12ReadBroken(r.Emitted)
+	em, err := c12ReadEmitted(r.Emitted)
 	if err != nil {
 		c.Infra(err)
 		return
 	}
+	allBroken, disagree := em.broken, em.disagree
 	// batch 1 is the model: MC of the documented order; the recorded batches follow
 	var broken []c12Broken
 	for _, b := range allBroken {
@@ -1503,11 +1751,12 @@ func checkC12(c *Ctx) {
 		c.Infra(err)
 		return
 	}
-	_, _, sbroken, _, err := c12ReadBroken(r.Emitted)
+	sem, err := c12ReadEmitted(r.Emitted)
 	if err != nil {
 		c.Infra(err)
 		return
 	}
+	sbroken := sem.broken
 	caught := false
 	for _, b := range sbroken {
 		if b.Law == "cmp_antisymmetric" && b.X == 1 && b.Y == 2 {
@@ -1590,6 +1839,9 @@ func c12Report(c *Ctx, tables []*c12Table, broken, disagree []c12Broken) {
 		if a.B != b.B {
 			return a.B < b.B
 		}
+		if wa, wb := strings.HasPrefix(a.Law, "bigmap"), strings.HasPrefix(b.Law, "bigmap"); wa != wb {
+			return wb // the laws about single pairs and triples first: they name the narrowest instance
+		}
 		if a.Law != b.Law {
 			return a.Law < b.Law
 		}
@@ -1656,6 +1908,11 @@ func c12Report(c *Ctx, tables []*c12Table, broken, disagree []c12Broken) {
 						sig = "cmp-int-float-beyond-2^53-map-key-confusion"
 					}
 				}
+				for _, o := range t.U {
+					if o.epoch() != t.U[x].epoch() && !strings.HasSuffix(sig, "events") {
+						sig += "-across-session-events"
+					}
+				}
 			}
 			var holds bool
 			var msg string
@@ -1677,6 +1934,20 @@ func c12Report(c *Ctx, tables []*c12Table, broken, disagree []c12Broken) {
 				holds, msg = c12CheckInstance(fresh[b.B], b.Law, b.Info, idx[0], idx[1], idx[2])
 			} else {
 				holds, msg = c12ReplayInstance(b.Law, b.Info, vals, idx[0], idx[1], idx[2])
+				if holds && c12HasHistory(t.U) {
+					// what a value does may depend on what the session went through before it was made:
+					// the instance is then the universe of the batch, in its order, and the indices
+					if fresh[b.B] == nil {
+						ft, err := c12Evaluate(t.U, t.Src)
+						if err != nil {
+							c.Infra(fmt.Errorf("re-evaluating batch %d: %w", b.B, err))
+							return
+						}
+						fresh[b.B] = ft
+					}
+					vals, idx = t.U, orig
+					holds, msg = c12CheckInstance(fresh[b.B], b.Law, b.Info, idx[0], idx[1], idx[2])
+				}
 			}
 			if holds {
 				c.Infra(fmt.Errorf("TLC reported %s at batch %d (%d,%d,%d) but the instance holds when re-evaluated on the real code", b.Law, b.B, b.X, b.Y, zi))
